@@ -12,7 +12,7 @@ from vlib.redzone import Frame
 PROPERTY = "C14"
 LEVEL = "exploration"
 CLAIM = {
-    "text": "Exhaustive-lattice runtime check: running mean/median for every length 1..24 x every window 1..50 x {float32,float64,uint8} against an explicit symmetric-reflection index map (independent of np.pad and bottleneck); downsample_1d for every n 1..40 x every factor 1..n x {mean,median}; downsample_2d, downsample_2d_flat and the numba mean kernels (sequential and _parallel) for every shape <= 12x12 x every factor pair, incl. uint8 inputs at the dtype maximum (overflow probe); detrend_1d against float64 least squares; TimeSeries.deredden/downsample and FilterbankBlock.downsample compositions. Kernel arguments are red-zone framed. Every input array is compared with a private copy after the call (filters and decimators return new arrays). Rounds 7-8 added: 2-D arrays with 4099-9001 columns and small non-dyadic factors, fast de-reddening at 103/150/200 bins. Round 9 added: running filters on 2^18+5001 samples (even and odd windows; the mean against the single-precision drift bound 4e-7*sqrt(n)*max|x|).",
+    "text": "Exhaustive-lattice runtime check: running mean/median for every length 1..24 x every window 1..50 x {float32,float64,uint8} against an explicit symmetric-reflection index map (independent of np.pad and bottleneck); downsample_1d for every n 1..40 x every factor 1..n x {mean,median}; downsample_2d, downsample_2d_flat and the numba mean kernels (sequential and _parallel) for every shape <= 12x12 x every factor pair, incl. uint8 inputs at the dtype maximum (overflow probe); detrend_1d against float64 least squares; TimeSeries.deredden/downsample and FilterbankBlock.downsample compositions. Kernel arguments are red-zone framed. Every input array is compared with a private copy after the call (filters and decimators return new arrays). Rounds 7-8 added: 2-D arrays with 4099-9001 columns and small non-dyadic factors, fast de-reddening at 103/150/200 bins. Round 9 added: running filters on 2^18+5001 samples (even and odd windows; the mean against the single-precision drift bound 4e-7*sqrt(n)*max|x|). Round 10 added: running filters on double-precision and 64-bit integer series at 2^30.",
     "design_ref": "DESIGN.md section 3 (C14), 2.2",
     "note": "Trusted: explicit Python index arithmetic + numpy float64 mean/median/lstsq. For integer output dtypes |out - mean| < 1 is required (truncation vs rounding not specified).",
     "technique": "runtime monitoring: bounded-exhaustive lattice against explicit-index reference definitions + red-zone canaries",
